@@ -339,7 +339,7 @@ class PD(Operator):
 
     def _apply(self, sm):
         xp = common.get_array_module()
-        eq = xp.array([0, 0, 1]) * xp.atleast_1d(self.pd)[..., np.newaxis, np.newaxis]
+        eq = xp.array([0, 0, 1], dtype=complex) * xp.atleast_1d(self.pd)[..., np.newaxis, np.newaxis]
         # replace equilibrium (zero-padded to the current number of states)
         sm.arrays.set("equilibrium", eq, resize=True)
         if self.reset:
